@@ -86,7 +86,14 @@ def payload_to_terms(ex, world, Kop, payload):
         z = z3.EmptySet(Node)
         for x in items:
             z = z3.SetAdd(z, x)
-        order = ex.fresh("qorder", I)
+        # the very tuple of bound variables of an existing quantifier (same symbols, same order)?
+        src = None
+        if items and all(z3.is_app(x) and x.decl().eq(S.qv) for x in items):
+            n0 = items[0].arg(0)
+            if all(x.arg(0).eq(n0) and z3.is_int_value(x.arg(1)) and x.arg(1).as_long() == i for i, x in enumerate(items)) \
+                    and ex.ghost.get("qvars_len", {}).get(n0.get_id()) == len(items):
+                src = n0
+        order = S.pl_alg(src) if src is not None else ex.fresh("qorder", I)
         return [z, order]
     if Kop == S.ARRAY_VALUE:
         return [payload]
